@@ -7,6 +7,15 @@ fn verif_replay() {
     let path = match std::env::var("VERIF_REPLAY") { Ok(p) => p, Err(_) => return };
     let case: serde_json::Value = serde_json::from_str(&std::fs::read_to_string(path).unwrap()).unwrap();
     let a = case["args"].clone();
+    if case["driver"].as_str() == Some("address") {
+        // a destination as the configuration reader (serde) and FromStr see it
+        let text = a["text"].as_str().unwrap_or("").to_string();
+        let via_serde: Result<crate::context::TargetAddress, _> = serde_yaml::from_value(serde_yaml::Value::String(text.clone()));
+        let via_parse: Result<crate::context::TargetAddress, _> = text.parse();
+        let unk = matches!(via_serde, Ok(crate::context::TargetAddress::Unknown)) || matches!(via_parse, Ok(crate::context::TargetAddress::Unknown));
+        println!("VERIF-OUTCOME {}", serde_json::json!({"panicked": false, "parsed_as_unknown": unk, "serde_ok": via_serde.is_ok(), "parse_ok": via_parse.is_ok()}));
+        return;
+    }
     let which = a["which"].as_str().unwrap().to_string();
     let f = a["fn"].as_str().unwrap().to_string();
     let yaml = a["yaml"].as_str().unwrap().to_string();
